@@ -1,12 +1,14 @@
 (* C11, the completeness link: outside the finding classes of Spec/C11Spec.v (known_C11 = None) the
    graph collected by topsort.rs's get_dependencies is, row by row, exactly the declarative
-   reference relation [refers] (plus the own-name entry an algebraic enum pushes first, which makes
-   toposort_impl ignore that row).  Hence, when [refers] is acyclic, topsort emits every definition
-   after all definitions it refers to.
+   reference relation [refers] - for structs, aliases, consts and enums alike (since the repair of
+   get_enum_dependencies an enum's row is an ordinary row: tuple payloads and struct-variant fields
+   are followed, the enum's own name is not pushed).  Hence, when [refers] is acyclic, topsort emits
+   every definition after all definitions it refers to.
 
    Shape of the argument
-   1. toposort_impl g = toposort_impl (clean g), where [clean] empties every row that starts with
-      its own index (the cycle `return` fires on the first entry of such a row).
+   1. (a general fact about toposort_impl, no longer used by the link) toposort_impl g =
+      toposort_impl (clean g), where [clean] empties every row that starts with its own index (the
+      cycle `return` fires on the first entry of such a row).
    2. Kahn's peeling (Spec acyclic) yields a rank that strictly decreases along [refers].
    3. The collectors: a nested call get_dependencies(types[id]) made right after seen.insert(id) is
       a no-op (the callee's own seen.insert(id.original) fails), so every row is the list of names
@@ -278,17 +280,15 @@ Proof.
 Qed.
 End Fuel.
 
-(* the tuple-variant types get_enum_dependencies walks *)
-Definition tuple_types (sh : eshared) : list rtype :=
-  flat_map (fun v => match v with VTuple t _ => [t] | _ => [] end) (evariants sh).
+(* the `res` vector get_dependencies(thing, .., &mut deps, &mut HashSet::new()) leaves for one item:
+   the same description for every kind of item (RustEnum::Unit has no visible types: []) *)
+Definition row_names (it : ritem) : list str := flat_map (pushes [oname it]) (visible_types it).
 
-(* the `res` vector get_dependencies(thing, .., &mut deps, &mut HashSet::new()) leaves for one item *)
-Definition row_names (it : ritem) : list str :=
-  match it with
-  | ItEnum (EUnit _) => []
-  | ItEnum (EAlgebraic _ _ sh) => oname it :: flat_map (pushes [oname it]) (tuple_types sh)
-  | _ => flat_map (pushes [oname it]) (visible_types it)
-  end.
+(* the variant walk of get_enum_dependencies visits the types the spec calls [variant_types], in order *)
+Lemma enum_walk_types vs :
+  flat_map (fun v => match v with VUnit _ => [] | VAnon fs _ => map fty fs | VTuple t _ => [t] end) vs =
+  flat_map variant_types vs.
+Proof. apply flat_map_ext. intros [sh|t sh|fs sh]; reflexivity. Qed.
 
 Hypothesis no_shadow : alias_generic_shadows things = false.
 
@@ -317,12 +317,13 @@ Lemma gd_row f it : In it things ->
   get_dependencies (S (S f)) T it {| dres := []; dseen := [] |} = Some {| dres := row_names it; dseen := [] |}.
 Proof.
   intros Hin. rewrite gd_unfold.
-  destruct it as [st|[sh|tg ct sh]|a|c]; cbn [deps_item row_names]; try reflexivity;
+  unfold row_names.
+  destruct it as [st|[sh|tg ct sh]|a|c]; cbn [deps_item]; try reflexivity;
     unfold seen_insert; cbn [dseen dres mem_str existsb].
   - rewrite deps_fields_spec. cbn [obind dres dseen app]. unfold seen_remove. cbn [dres dseen filter].
     unfold oname; cbn [item_id visible_types]. now rewrite str_eqb_refl.
-  - rewrite deps_fields_spec. cbn [obind]. unfold seen_remove, res_push. cbn [dres dseen filter app].
-    unfold oname, tuple_types; cbn [item_id enum_shared]. now rewrite str_eqb_refl.
+  - rewrite enum_walk_types, deps_fields_spec. cbn [obind dres dseen app]. unfold seen_remove. cbn [dres dseen filter].
+    unfold oname; cbn [item_id enum_shared visible_types]. now rewrite str_eqb_refl.
   - rewrite deps_type_spec. cbn [obind dres dseen app].
     rewrite generics_fold_idle; [|intros g Hg; eapply alias_generics_unknown; eassumption].
     cbn [obind]. unfold seen_remove. cbn [dres dseen filter].
@@ -374,12 +375,7 @@ Qed.
 
 Lemma row_names_known it n : In n (row_names it) -> In it things -> known n = true.
 Proof.
-  intros H Hin. destruct it as [st|[sh|tg ct sh]|a|c]; cbn [row_names] in H.
-  - now apply pushes_flat_visible in H.
-  - destruct H.
-  - destruct H as [<-|H]; [now apply In_known|]. now apply pushes_flat_visible in H.
-  - now apply pushes_flat_visible in H.
-  - now apply pushes_flat_visible in H.
+  intros H _. unfold row_names in H. now apply pushes_flat_visible in H.
 Qed.
 
 (* ------------------------------------------------------------------ 4. names and positions *)
@@ -484,27 +480,21 @@ Proof.
     rewrite E1. f_equal. eapply name_inj; eassumption.
 Qed.
 
-Lemma dag_row_enum_head i tg ct sh row : nth_error things i = Some (ItEnum (EAlgebraic tg ct sh)) ->
-  dag_row things (ItEnum (EAlgebraic tg ct sh)) = Ok row -> exists rest, row = i :: rest.
-Proof.
-  intros Hi E. pose proof (nth_error_In _ _ Hi) as Hin. rewrite (dag_row_names _ Hin) in E.
-  cbn [row_names] in E. apply mapM_head in E as (j & rest & -> & Ej). exists rest. f_equal.
-  destruct (dep_index_ok _ (In_known _ Hin)) as (i' & x & E1 & E2 & E3).
-  rewrite E1 in Ej. injection Ej as <-. eapply name_inj; eassumption.
-Qed.
-
 (* ------------------------------------------------------------------ 5. rows = references *)
-Definition is_enum (it : ritem) : bool := match it with ItEnum _ => true | _ => false end.
-
-Lemma enum_invisible a b : is_enum a = true -> edge_visible things a b = false.
-Proof. destruct a; try discriminate. reflexivity. Qed.
-
-Lemma row_edge a b : In a things -> In b things -> is_enum a = false ->
+(* every kind of item, enums included *)
+Lemma row_edge a b : In a things -> In b things ->
   (In (oname b) (row_names a) <-> edge_visible things a b = true /\ oname b <> oname a).
 Proof.
-  intros Ha Hb NE. unfold edge_visible. rewrite c11_mem_str_In. fold known. fold (oname a). fold (oname b).
-  assert (E : row_names a = flat_map (pushes [oname a]) (visible_types a)) by (destruct a; try discriminate; reflexivity).
-  rewrite E, pushes_flat_visible. pose proof (In_known b Hb). tauto.
+  intros Ha Hb. unfold edge_visible. rewrite c11_mem_str_In. fold known. fold (oname a). fold (oname b).
+  unfold row_names. rewrite pushes_flat_visible. pose proof (In_known b Hb). tauto.
+Qed.
+
+(* no row mentions its own position: the item's name sits in `seen` for the whole collection *)
+Lemma dag_row_irreflexive i a row : nth_error things i = Some a -> dag_row things a = Ok row -> ~ In i row.
+Proof.
+  intros Ea Er H. pose proof (nth_error_In _ _ Ea) as Ha.
+  apply (dag_row_members a row Ha Er) in H as (a' & Ea' & Hn). rewrite Ea in Ea'. injection Ea' as <-.
+  apply (row_edge a a Ha Ha) in Hn as (_ & NE). now apply NE.
 Qed.
 
 Hypothesis complete : forall a b, In a things -> In b things -> refers a b = true -> edge_visible things a b = true.
@@ -547,35 +537,25 @@ Theorem topsort_topological_sec :
 Proof.
   destruct build_dag_total as (dag & EB & Hrows).
   destruct (build_dag_wf things dag EB) as [HL HW].
-  assert (HLc : length (clean dag) = length dag) by apply clean_from_length.
-  assert (HWc : Forall (Forall (fun x => x < length (clean dag))) (clean dag)).
-  { rewrite HLc. now apply clean_from_wf. }
-  (* every edge of the cleaned collected graph is a reference, so it decreases the Kahn rank *)
-  assert (Hrank : forall i deps x, nth_error (clean dag) i = Some deps -> In x deps -> irank x < irank i).
-  { intros i deps x Hi Hx. rewrite clean_nth in Hi.
-    destruct (nth_error dag i) as [row|] eqn:Ed; [|discriminate]. cbn [option_map] in Hi. injection Hi as <-.
+  (* every edge of the collected graph is a reference, so it decreases the Kahn rank *)
+  assert (Hrank : forall i deps x, nth_error dag i = Some deps -> In x deps -> irank x < irank i).
+  { intros i row x Ed Hx.
     assert (Hlt : i < length things) by (rewrite <- HL; apply nth_error_Some; congruence).
     destruct (nth_error things i) as [a|] eqn:Ea; [|apply nth_error_None in Ea; lia].
     pose proof (nth_error_In _ _ Ea) as Ha.
     destruct (Hrows i a Ea) as (row0 & Ed0 & Er). rewrite Ed in Ed0. injection Ed0 as <-.
-    pose proof (clean_row_incl i row x Hx) as Hxr.
-    apply (dag_row_members a row Ha Er) in Hxr as (b & Eb & Hn).
+    apply (dag_row_members a row Ha Er) in Hx as (b & Eb & Hn).
     pose proof (nth_error_In _ _ Eb) as Hb.
-    destruct (is_enum a) eqn:EN.
-    - exfalso. destruct a as [|[sh|tg ct sh]| |]; try discriminate.
-      + destruct Hn.
-      + destruct (dag_row_enum_head i tg ct sh row Ea Er) as (rest & ->).
-        unfold clean_row, self_started in Hx. rewrite Nat.eqb_refl in Hx. destruct Hx.
-    - apply (row_edge a b Ha Hb EN) in Hn as (EV & NN).
-      assert (SI : same_item a b = false).
-      { unfold same_item. destruct (ritem_eqb a b) eqn:E; [|reflexivity]. apply ritem_eqb_name in E. congruence. }
-      pose proof (no_phantom a b Ha Hb EV SI) as R.
-      unfold irank. rewrite Ea, Eb. apply kahn_rank; auto. }
-  destruct (toposort_acyclic (clean dag) HWc irank Hrank) as (r & Er & Pr & Ho).
-  rewrite HLc, HL in Pr.
+    apply (row_edge a b Ha Hb) in Hn as (EV & NN).
+    assert (SI : same_item a b = false).
+    { unfold same_item. destruct (ritem_eqb a b) eqn:E; [|reflexivity]. apply ritem_eqb_name in E. congruence. }
+    pose proof (no_phantom a b Ha Hb EV SI) as R.
+    unfold irank. rewrite Ea, Eb. apply kahn_rank; auto. }
+  destruct (toposort_acyclic dag HW irank Hrank) as (r & Er & Pr & Ho).
+  rewrite HL in Pr.
   set (out := map (fun j => nth j things c11_default) r).
   assert (ET : topsort things = Ok out).
-  { unfold topsort. rewrite EB. cbn [bind]. rewrite toposort_impl_clean, Er. cbn [bind].
+  { unfold topsort. rewrite EB. cbn [bind]. rewrite Er. cbn [bind].
     now apply sort_by_indices_spec. }
   exists out. split; [exact ET|]. split.
   { destruct (topsort_permutation things dag EB) as (out' & E' & P'). congruence. }
@@ -595,18 +575,12 @@ Proof.
   assert (Hxy : x <> y).
   { rewrite Er12 in ND. apply NoDup_remove_2 in ND. intros ->. apply ND. apply in_or_app. now right. }
   pose proof (complete a b Ha Hb R) as EV.
-  destruct (is_enum a) eqn:EN; [rewrite (enum_invisible a b EN) in EV; discriminate|].
   assert (NN : oname b <> oname a).
   { intros E. apply Hxy. eapply name_inj; [exact Ea|exact Eb|]. now symmetry. }
   destruct (Hrows x a Ea) as (row & Ed & Erow).
   assert (Hyr : In y row).
-  { apply (dag_row_members a row Ha Erow). exists b. split; [exact Eb|]. apply (row_edge a b Ha Hb EN). auto. }
-  assert (Hxr : ~ In x row).
-  { intros H. apply (dag_row_members a row Ha Erow) in H as (a' & Ea' & Hn). rewrite Ea in Ea'. injection Ea' as <-.
-    apply (row_edge a a Ha Ha EN) in Hn as (_ & NE). now apply NE. }
-  assert (Ec : nth_error (clean dag) x = Some row).
-  { rewrite clean_nth, Ed. cbn [option_map]. now rewrite clean_row_keep. }
-  pose proof (Ho r1 x r2 row Er12 Ec y Hyr) as Hy1.
+  { apply (dag_row_members a row Ha Erow). exists b. split; [exact Eb|]. apply (row_edge a b Ha Hb). auto. }
+  pose proof (Ho r1 x r2 row Er12 Ed y Hyr) as Hy1.
   apply in_split in Hy1 as (l1 & l2 & ->).
   rewrite Er12, <- app_assoc in ND. cbn [app] in ND. apply NoDup_remove_2 in ND.
   apply ND. apply in_or_app. right. apply in_or_app. right. now right.
@@ -616,8 +590,7 @@ End Coll.
 (* ------------------------------------------------------------------ 6. from the decidable class predicate *)
 Lemma edge_class_some a b : edge_class a b <> None.
 Proof.
-  unfold edge_class, cls. destruct a as [s|[sh|t c sh]|al|c]; try (destruct (negb _); discriminate).
-  destruct (_ && _); discriminate.
+  unfold edge_class, cls. destruct (negb _); discriminate.
 Qed.
 Lemma phantom_class_some a b : phantom_class a b <> None.
 Proof. unfold phantom_class, cls. destruct (mem_str _ _); discriminate. Qed.
@@ -707,35 +680,41 @@ Proof.
     rewrite (perm_ok_of_Permutation _ _ P). reflexivity.
 Qed.
 
-(* the link itself, row by row: outside the classes every row of the collected graph of a struct,
-   alias or const is exactly the set of positions of the items it refers to; enums refer to nothing
-   and their row is empty or starts with their own position *)
+(* the link itself, row by row: outside the classes the row of EVERY item - struct, enum, alias,
+   const - is exactly the set of positions of the items it refers to (in particular no row contains
+   its own position) *)
 Theorem collected_rows_are_references things : known_C11 things = None ->
   exists dag, build_dag things = Ok dag /\
     forall i a row, nth_error things i = Some a -> nth_error dag i = Some row ->
-      if is_enum a
-      then (forall b, In b things -> refers a b = false) /\ (row = [] \/ exists rest, row = i :: rest)
-      else forall j b, nth_error things j = Some b -> (In j row <-> refers a b = true).
+      forall j b, nth_error things j = Some b -> (In j row <-> refers a b = true).
 Proof.
   intros HK. destruct (known_none things HK) as (H1 & H2 & H3 & H4).
   destruct (build_dag_total things H2) as (dag & EB & Hrows). exists dag. split; [exact EB|].
   intros i a row Ea Ed. destruct (Hrows i a Ea) as (row0 & Ed0 & Er). rewrite Ed in Ed0. injection Ed0 as <-.
   pose proof (nth_error_In _ _ Ea) as Ha.
-  destruct (is_enum a) eqn:EN.
-  - split.
-    + intros b Hb. destruct (refers a b) eqn:R; [|reflexivity].
-      pose proof (H3 a b Ha Hb R) as EV. rewrite (enum_invisible things a b EN) in EV. discriminate.
-    + destruct a as [|[sh|tg ct sh]| |]; try discriminate.
-      * left. rewrite (dag_row_names things H2 _ Ha) in Er. cbn in Er. congruence.
-      * right. eapply dag_row_enum_head; eassumption.
-  - intros j b Eb. pose proof (nth_error_In _ _ Eb) as Hb.
-    rewrite (dag_row_members things H2 H1 a row Ha Er j). split.
-    + intros (b' & Eb' & Hn). rewrite Eb in Eb'. injection Eb' as <-.
-      apply (row_edge things a b Ha Hb EN) in Hn as (EV & NN). apply H4; auto.
-      unfold same_item. destruct (ritem_eqb a b) eqn:E; [|reflexivity]. apply ritem_eqb_name in E. congruence.
-    + intros R. exists b. split; [exact Eb|]. apply (row_edge things a b Ha Hb EN). split; [now apply H3|].
-      intros E. assert (i = j) by (eapply (name_inj things H1); [exact Ea|exact Eb|now symmetry]). subst j.
-      rewrite Ea in Eb. injection Eb as <-. unfold refers, same_item in R. rewrite ritem_eqb_refl in R. discriminate.
+  intros j b Eb. pose proof (nth_error_In _ _ Eb) as Hb.
+  rewrite (dag_row_members things H2 H1 a row Ha Er j). split.
+  - intros (b' & Eb' & Hn). rewrite Eb in Eb'. injection Eb' as <-.
+    apply (row_edge things a b Ha Hb) in Hn as (EV & NN). apply H4; auto.
+    unfold same_item. destruct (ritem_eqb a b) eqn:E; [|reflexivity]. apply ritem_eqb_name in E. congruence.
+  - intros R. exists b. split; [exact Eb|]. apply (row_edge things a b Ha Hb). split; [now apply H3|].
+    intros E. assert (i = j) by (eapply (name_inj things H1); [exact Ea|exact Eb|now symmetry]). subst j.
+    rewrite Ea in Eb. injection Eb as <-. unfold refers, same_item in R. rewrite ritem_eqb_refl in R. discriminate.
+Qed.
+
+(* the rows of the collected graph never start with (or contain) their own index any more - cycles
+   included: the self-started-row phenomenon of toposort_impl_clean cannot be triggered by topsort's
+   own graph *)
+Theorem collected_rows_irreflexive things : alias_generic_shadows things = false -> has_dup_names things = false ->
+  exists dag, build_dag things = Ok dag /\
+    forall i row, nth_error dag i = Some row -> ~ In i row.
+Proof.
+  intros H2 H1. destruct (build_dag_total things H2) as (dag & EB & Hrows). exists dag. split; [exact EB|].
+  intros i row Ed. destruct (build_dag_wf things dag EB) as [HL _].
+  assert (Hlt : i < length things) by (rewrite <- HL; apply nth_error_Some; congruence).
+  destruct (nth_error things i) as [a|] eqn:Ea; [|apply nth_error_None in Ea; lia].
+  destruct (Hrows i a Ea) as (row0 & Ed0 & Er). rewrite Ed in Ed0. injection Ed0 as <-.
+  eapply dag_row_irreflexive; eassumption.
 Qed.
 
 (* ------------------------------------------------------------------ witnesses *)
@@ -791,15 +770,32 @@ Lemma C11_duplicate_names_refuted :
   c11_refutes "C11-duplicate-names" [w_struct "A" [] [w_s "X"]; w_struct "X" [] []; w_const "X" (RPrim PU32)].
 Proof. refute. Qed.
 
-(* enum E { V { f: B } }  struct B {} *)
-Lemma C11_variant_fields_refuted :
-  c11_refutes "C11-variant-fields" [w_enum "E" [VAnon [w_field (w_s "B")] w_vsh]; w_struct "B" [] []].
-Proof. refute. Qed.
+(* REGRESSION PINS of the two classes repaired in get_enum_dependencies (they were `_refuted`
+   witnesses before): the input is outside every class, its references are acyclic, it really
+   contains a reference, and the model's topsort now emits every definition after what it uses *)
+Definition c11_pinned_ok (w : list ritem) : Prop :=
+  known_C11 w = None /\ acyclic w = true /\ existsb (fun a => existsb (refers a) w) w = true /\
+  exists out, topsort w = Ok out /\ topo_ok out = true.
 
-(* enum E { V(B) }  struct B {} *)
-Lemma C11_enum_self_edge_refuted :
-  c11_refutes "C11-enum-self-edge" [w_enum "E" [VTuple (w_s "B") w_vsh]; w_struct "B" [] []].
-Proof. refute. Qed.
+Ltac pinned :=
+  split; [vm_compute; reflexivity|split; [vm_compute; reflexivity|split; [vm_compute; reflexivity|]]];
+  eexists; split; vm_compute; reflexivity.
+
+(* enum E { V { f: B } }  struct B {}: formerly C11-variant-fields (struct-variant fields ignored) *)
+Lemma C11_variant_fields_fixed :
+  c11_pinned_ok [w_enum "E" [VAnon [w_field (w_s "B")] w_vsh]; w_struct "B" [] []].
+Proof. pinned. Qed.
+
+(* enum E { V(B) }  struct B {}: formerly C11-enum-self-edge (own name pushed first, row dropped by the cycle cut) *)
+Lemma C11_enum_self_edge_fixed :
+  c11_pinned_ok [w_enum "E" [VTuple (w_s "B") w_vsh]; w_struct "B" [] []].
+Proof. pinned. Qed.
+
+(* enum A { V(B) }  enum B { W { f: Vec<C> }, U }  struct C {} fed as A, B, C: a chain through both variant shapes *)
+Lemma C11_enum_chain_fixed :
+  c11_pinned_ok [w_enum "A" [VTuple (w_s "B") w_vsh]; w_enum "B" [VAnon [w_field (RVec (w_s "C"))] w_vsh; VUnit w_vsh];
+                 w_struct "C" [] []].
+Proof. pinned. Qed.
 
 (* struct A { f: Unknown<B> }  struct B {} *)
 Lemma C11_generic_arg_depth_refuted :
